@@ -19,6 +19,9 @@ pub use pam::{module::PamHooks, PamSparkle};
 
 pub(crate) mod core;
 
+#[cfg(feature = "verif-hooks")]
+pub mod verif_hooks;
+
 // pub use needs to be here so it'll compile and export all the things
 #[cfg(target_family = "unix")]
 pub use crate::pam::*;
